@@ -696,7 +696,20 @@ func (exp *exporter) TableOfContentsInfos(flags map[string]bool) {
 	// (dominitoc, etc.) (useless for html)
 }
 
+// checkAttributes reports the attributes of a -a option that would be written
+// twice in an element: class and id are written by the exporter itself.
+func (exp *exporter) checkAttributes(pairs []string) {
+	seen := map[string]bool{"class": true, "id": true}
+	for i := 0; i < len(pairs)-1; i += 2 {
+		if seen[pairs[i]] {
+			exp.Context().Errorf("in -a option: attribute `%s' is reserved or given twice", pairs[i])
+		}
+		seen[pairs[i]] = true
+	}
+}
+
 func (exp *exporter) Xdtag(cmd string, pairs []string) frundis.Dtag {
+	exp.checkAttributes(pairs)
 	switch cmd {
 	case "address", "article", "aside", "blockquote", "div", "header", "fieldset",
 		"figure", "footer", "form", "main", "nav", "section", "":
@@ -707,6 +720,7 @@ func (exp *exporter) Xdtag(cmd string, pairs []string) frundis.Dtag {
 }
 
 func (exp *exporter) Xmtag(cmd *string, begin string, end string, pairs []string) frundis.Mtag {
+	exp.checkAttributes(pairs)
 	var c string
 	if cmd == nil || *cmd == "" {
 		c = "em"
